@@ -21,6 +21,15 @@ class AnchorMissing(AnalysisError):
     pass
 
 
+def _body_without_doc(fnode) -> list:
+    body = list(fnode.body)
+    if body and isinstance(body[0], ast.Expr) and isinstance(getattr(body[0], "value", None),
+                                                             ast.Constant) \
+            and isinstance(body[0].value.value, str):
+        body = body[1:]
+    return body
+
+
 _BASE_NESTED: dict | None = None
 
 
@@ -259,6 +268,177 @@ class Repo:
         self._merge_forwarders()
         self.renamed: list[tuple[str, str]] = []
         self._alias_renamed()
+        self.inlined_helpers: list[tuple[str, str]] = []
+        self._inline_new_helpers()
+
+    # "Extract method" undone at the syntax level: a function that is not in the baseline
+    # list (the rules cannot know it), is used exactly once, as a whole statement
+    # (`h(...)`, `x = h(...)`, `return h(...)`), has a plain signature and returns only at
+    # its end, is pasted back into its single call site -- parameters bound to the
+    # arguments, its own locals prefixed.  Rules that read one function's syntax / CFG
+    # (typestate, key discipline, loop shape) then see the function as it was before the
+    # extraction; the evaluator's reading-through covers the helpers this leaves alone
+    # (used several times, early returns).
+    def _inline_new_helpers(self) -> None:
+        import copy
+        path = os.path.join(os.path.dirname(os.path.dirname(os.path.abspath(__file__))),
+                            "baseline_functions.txt")
+        if not os.path.exists(path):
+            return
+        base = {l.strip() for l in open(path) if l.strip()}
+        uses: dict[str, int] = {}
+        for mi in self.modules.values():
+            for x in ast.walk(mi.tree):
+                if isinstance(x, ast.Attribute):
+                    uses[x.attr] = uses.get(x.attr, 0) + 1
+                elif isinstance(x, ast.Name) and isinstance(x.ctx, ast.Load):
+                    uses[x.id] = uses.get(x.id, 0) + 1
+
+        def candidate(h: FunctionInfo) -> bool:
+            if h.qualname in base or "<locals>" in h.qualname or h.parent is not None \
+                    or not isinstance(h.node, ast.FunctionDef) or uses.get(h.name, 0) != 1:
+                return False
+            decs = h.decorators()
+            if any(d not in ("staticmethod",) for d in decs):
+                return False
+            a = h.node.args
+            if a.vararg or a.kwarg or a.kwonlyargs or a.posonlyargs or a.defaults:
+                return False
+            body = _body_without_doc(h.node)
+            for i_, st in enumerate(body):
+                for x in ast.walk(st):
+                    if isinstance(x, (ast.Yield, ast.YieldFrom, ast.Await, ast.Global,
+                                      ast.Nonlocal, ast.FunctionDef, ast.AsyncFunctionDef,
+                                      ast.Lambda, ast.ClassDef)):
+                        return False
+                    if isinstance(x, ast.Return) and not (x is st and i_ == len(body) - 1):
+                        return False
+                    if isinstance(x, ast.Call) and isinstance(x.func, ast.Name) \
+                            and x.func.id in ("locals", "vars", "super"):
+                        return False
+            return bool(body)
+
+        def resolve(call: ast.Call, f: FunctionInfo) -> FunctionInfo | None:
+            fn = call.func
+            if isinstance(fn, ast.Attribute) and isinstance(fn.value, ast.Name) \
+                    and fn.value.id in ("self", "cls") and f.cls is not None:
+                cands = f.cls.methods.get(fn.attr, [])
+                return cands[0] if len(cands) == 1 else None
+            if isinstance(fn, ast.Name):
+                return self.functions.get(f"{f.module.name}.{fn.id}")
+            return None
+
+        def paste(h: FunctionInfo, call: ast.Call, f: FunctionInfo):
+            """-> (statements, result expression | None) or None"""
+            if call.keywords or any(isinstance(a_, ast.Starred) for a_ in call.args):
+                return None
+            params = [x.arg for x in h.node.args.args]
+            is_method = h.cls is not None and "staticmethod" not in h.decorators()
+            recv = call.func.value.id if isinstance(call.func, ast.Attribute) else None
+            if is_method:
+                if recv is None or not params:
+                    return None
+                self_name, params = params[0], params[1:]
+            else:
+                self_name = None
+            if len(params) != len(call.args):
+                return None
+            body = copy.deepcopy(_body_without_doc(h.node))
+            stored = {x.id for st in body for x in ast.walk(st)
+                      if isinstance(x, ast.Name) and isinstance(x.ctx, ast.Store)}
+            for st in body:
+                for x in ast.walk(st):
+                    if isinstance(x, ast.comprehension):
+                        stored -= {y.id for y in ast.walk(x.target) if isinstance(y, ast.Name)}
+            caller_names = {x.id for x in ast.walk(f.node) if isinstance(x, ast.Name)} | {
+                x.arg for x in ast.walk(f.node) if isinstance(x, ast.arg)}
+            pre, mapping = [], {}
+            for p_, a_ in zip(params, call.args):
+                if isinstance(a_, (ast.Name, ast.Constant)) and p_ not in stored:
+                    mapping[p_] = a_
+                elif isinstance(a_, ast.Attribute) and p_ not in stored and all(
+                        isinstance(y, (ast.Attribute, ast.Name)) for y in ast.walk(a_)
+                        if not isinstance(y, ast.expr_context)):
+                    mapping[p_] = a_
+                else:
+                    pre.append(ast.Assign(targets=[ast.Name(id=p_, ctx=ast.Store())], value=a_))
+                    stored.add(p_)
+            if self_name is not None:
+                mapping[self_name] = ast.Name(id=recv, ctx=ast.Load())
+            rename = {v_: f"_h_{h.name}_{v_}" for v_ in stored
+                      if v_ in caller_names or v_ in params}
+
+            class Sub(ast.NodeTransformer):
+                def visit_Name(s_, nd):
+                    if nd.id in rename:
+                        return ast.copy_location(ast.Name(id=rename[nd.id], ctx=nd.ctx), nd)
+                    if nd.id in mapping and isinstance(nd.ctx, ast.Load):
+                        return ast.copy_location(copy.deepcopy(mapping[nd.id]), nd)
+                    return nd
+            out = [Sub().visit(st) for st in pre + body]
+            result = None
+            if out and isinstance(out[-1], ast.Return):
+                result = out[-1].value
+                out = out[:-1]
+            for st in out:
+                ast.copy_location(st, call)
+                ast.fix_missing_locations(st)
+            return out, result
+
+        def rewrite_block(stmts: list, f: FunctionInfo) -> bool:
+            changed = False
+            i_ = 0
+            while i_ < len(stmts):
+                st = stmts[i_]
+                call = None
+                if isinstance(st, ast.Expr) and isinstance(st.value, ast.Call):
+                    call = st.value
+                elif isinstance(st, (ast.Assign, ast.Return, ast.AnnAssign)) and isinstance(
+                        getattr(st, "value", None), ast.Call):
+                    call = st.value
+                h = resolve(call, f) if call is not None else None
+                if h is not None and h is not f and candidate(h):
+                    got = paste(h, call, f)
+                    if got is not None:
+                        body, result = got
+                        tail = []
+                        none_ = ast.Constant(value=None)
+                        if isinstance(st, ast.Expr):
+                            tail = []
+                        elif isinstance(st, ast.Return):
+                            tail = [ast.Return(value=result if result is not None else none_)]
+                        else:
+                            new_st = copy.copy(st)
+                            new_st.value = result if result is not None else none_
+                            tail = [new_st]
+                        for t_ in tail:
+                            ast.copy_location(t_, st)
+                            ast.fix_missing_locations(t_)
+                        stmts[i_:i_ + 1] = body + tail
+                        self.inlined_helpers.append((f.qualname, h.qualname))
+                        for k_ in [k_ for k_, v_ in self.functions.items() if v_ is h]:
+                            del self.functions[k_]
+                        if h.cls is not None:
+                            h.cls.methods.pop(h.name, None)
+                        changed = True
+                        continue
+                for fld in ("body", "orelse", "finalbody"):
+                    sub_ = getattr(st, fld, None)
+                    if isinstance(sub_, list) and sub_ and isinstance(sub_[0], ast.stmt) \
+                            and not isinstance(st, (ast.FunctionDef, ast.ClassDef)):
+                        changed |= rewrite_block(sub_, f)
+                for hd in getattr(st, "handlers", []) or []:
+                    changed |= rewrite_block(hd.body, f)
+                i_ += 1
+            return changed
+
+        for _round in range(3):
+            any_change = False
+            for f in list(self.functions.values()):
+                if isinstance(f.node, ast.FunctionDef) and f.parent is None:
+                    any_change |= rewrite_block(f.node.body, f)
+            if not any_change:
+                break
 
     # A method / function the rules know by name is gone, and in the same class / module
     # exactly one function appeared that the rules do not know: it was RENAMED.  It is
